@@ -428,6 +428,27 @@ func (g *dgen) method(svc *spec.Service, idx int) *spec.Method {
 		}
 		m.Responses = []*spec.Response{resp}
 		status = resp.Status
+		// a second success response selected by a tag value, with its own status and media type
+		if t.Draw("tagged-response", 4) == 0 {
+			tagName := "state"
+			for r.Field(tagName) != nil {
+				tagName += "t"
+			}
+			r.Fields = append(r.Fields, &spec.Attr{Name: tagName, Type: &spec.Type{Kind: spec.String}, Required: true,
+				Val: &spec.Validation{Enum: []any{"done", "pending", "queued"}}})
+			second := &spec.Response{Status: []int{202, 201, 200}[t.Draw("status2", 3)], Headers: resp.Headers, Cookies: resp.Cookies, TagAttr: tagName, TagVal: "pending"}
+			if second.Status == resp.Status {
+				second.Status = 206
+			}
+			if t.Draw("response-ct", 2) == 0 {
+				// media types that still mean JSON, so every oracle keeps reading the body
+				resp.CT = "application/json"
+				second.CT = "application/vnd.verif.pending+json"
+				g.feat("response:content-types")
+			}
+			m.Responses = []*spec.Response{second, resp}
+			g.feat("response:tagged")
+		}
 	} else {
 		g.feat("result:none")
 		m.Responses = []*spec.Response{{Status: []int{204, 200, 202}[t.Draw("status-empty", 3)]}}
@@ -746,6 +767,17 @@ func (g *dgen) newResultType() *spec.UserType {
 		}
 		o.Fields = append(o.Fields, f)
 		g.feat("views:nested")
+		// a second attribute of the SAME nested result type, rendered with another view
+		if len(nu.Views) > 1 && t.Draw("rt-second-child", 3) == 0 {
+			f2 := &spec.Attr{Name: "sibling", Type: &spec.Type{Kind: spec.User, Name: nu.Name}}
+			if f.View == "" {
+				f2.View = nu.Views[1+t.Draw("rt-ov2", len(nu.Views)-1)].Name
+			}
+			// a primitive in between keeps clear of a goa defect with two adjacent
+			// result-type attributes (recorded in DESIGN.md section 14 when met)
+			o.Fields = append(o.Fields, &spec.Attr{Name: "spacer", Type: &spec.Type{Kind: spec.Int}}, f2)
+			g.feat("views:same-type-two-views")
+		}
 	}
 	u.Attr = &spec.Attr{Type: o}
 	all := make([]string, len(o.Fields))
